@@ -39,6 +39,9 @@ def cases(tier, seed):
                     t, fc = deco[f[0]]
                     return (f[0], tuple((a, b, tuple(rec(k) for k in kids)) for (a, b, kids) in f[1]), f[2], t, fc, f[5])
                 yield ('T', (rec(m[0]), ()))
+    # query -> in-place edit -> query histories (stale memoisation would show here)
+    for m in sp.structures_upto(4 if tier == 'quick' else 5):
+        yield ('E', m)
     # constraint lists on a carrier
     singles = list(cm.k1()) + list(cm.arith_trees()) + list(cm.onearg_aggregate_trees()) + list(cm.k2_subset())
     for t in singles:
@@ -251,8 +254,77 @@ def _oracle(fm, model, route):
     return out
 
 
+def inplace_edits(model):
+    """(description, function(fm) editing the real model in place, expected shadow)."""
+    out = []
+    root = model[0]
+    for path, f in sh._paths(root):
+        for ri, (a0, b0, kids) in enumerate(f[1]):
+            for (a, b) in sp.cards_for(len(kids)):
+                if (a, b) == (a0, b0):
+                    continue
+
+                def edit(fm, name=f[0], ri=ri, a=a, b=b):
+                    rel = fm.get_feature_by_name(name).get_relations()[ri]
+                    rel.card_min = a
+                    rel.card_max = b
+                em = (sh._replace_feature(root, list(path), lambda g, ri=ri, a=a, b=b: (g[0], g[1][:ri] + ((a, b, g[1][ri][2]),) + g[1][ri + 1:], g[2], g[3], g[4], g[5])), model[1])
+                out.append(('card %s#%d -> [%d,%d]' % (f[0], ri, a, b), edit, em))
+
+            def grow(fm, name=f[0], ri=ri):
+                from flamapy.metamodels.fm_metamodel.models import Feature
+                owner = fm.get_feature_by_name(name)
+                child = Feature('Nw', [])
+                owner.get_relations()[ri].add_child(child)
+                child.parent = owner
+            em = (sh._replace_feature(root, list(path), lambda g, ri=ri: (g[0], g[1][:ri] + ((g[1][ri][0], g[1][ri][1], g[1][ri][2] + (sh.F('Nw'),)),) + g[1][ri + 1:], g[2], g[3], g[4], g[5])), model[1])
+            out.append(('add_child %s#%d' % (f[0], ri), grow, em))
+
+        def newrel(fm, name=f[0]):
+            from flamapy.metamodels.fm_metamodel.models import Feature, Relation
+            owner = fm.get_feature_by_name(name)
+            owner.add_relation(Relation(owner, [Feature('Nw', [])], 0, 1))
+        em = (sh._replace_feature(root, list(path), lambda g: (g[0], g[1] + ((0, 1, (sh.F('Nw'),)),), g[2], g[3], g[4], g[5])), model[1])
+        out.append(('add_relation %s' % f[0], newrel, em))
+
+        def retype(fm, name=f[0]):
+            from flamapy.metamodels.fm_metamodel.models import Cardinality, FeatureType
+            feat = fm.get_feature_by_name(name)
+            feat.feature_type = FeatureType.INTEGER
+            feat.feature_cardinality = Cardinality(0, 3)
+        em = (sh._replace_feature(root, list(path), lambda g: (g[0], g[1], g[2], 'Integer', (0, 3), g[5])), model[1])
+        out.append(('retype %s' % f[0], retype, em))
+    return out
+
+
+def _check_edits(model):
+    fails = []
+    for (what, edit, em) in inplace_edits(model):
+        fm, bf = cm.built(model)
+        if bf:
+            return bf
+        warm = _oracle(fm, model, 'A')          # every query has been asked once
+        if any(f.clause != 'relation-class-count' for f in warm):
+            return warm
+        edit(fm)
+        engine.tick()
+        if bd.observe(fm) != em:
+            raise AssertionError('in-place edit did not give the expected model: %s' % what)
+        after = [f for f in _oracle(fm, em, 'A') if f.clause != 'relation-class-count' or
+                 not any(sem.kind(a, b, len(k)) is None for (_p, a, b, k) in sh.relations(em))]
+        for f in after:
+            f.clause = 'after-inplace-edit:' + f.clause
+            f.detail = {'edit': what, 'info': f.detail}
+        if after:
+            fails.extend(after)
+            break
+    return fails
+
+
 def check(case):
     model = case[1]
+    if case[0] == 'E':
+        return _check_edits(model)
     fails = []
     for route in ('A', 'B'):
         fm, bf = cm.built(model, route)
